@@ -189,7 +189,7 @@ PROPS = {
                  "and D = last slot + Rm*RTO (reliable: t0+timeout); at on_timeout(now) a request with expiry E<=now must fail "
                  "iff no candidate > now remains, else be retransmitted exactly once byte-identically and get E' = first "
                  "candidate > now; requests with E>now are untouched; <= Rc transmissions; exact integer-nanosecond "
-                 "comparison of every pending expiry (hook) and notification. Plus the default schedule 500..39500 ms. "
+                 "comparison of every notification (pending expiries read through the hook are recorded as suspicion counters only). Plus the default schedule 500..39500 ms. "
                  "Configs: RTO 1 ms-3 s incl. learned values, Rm 1-32, Rc 1-10. Non-trivial = history with a retransmission "
                  "or a final outcome." + ENUM_T),
         "assumptions": [],
@@ -201,7 +201,7 @@ PROPS = {
         "profiles": ["dev"],
         "rule": SIMRULE + ("C11 oracle: after every send_request and on_timeout: no request awaiting => no notification; "
                  "otherwise exactly one, naming an awaiting request with minimal pending expiry (C06 model) and duration = "
-                 "max(0, E_min - now) exactly; (hook) one heap entry per awaiting request. Bounded liveness: a controller "
+                 "max(0, E_min - now) exactly; (hook) at least one timer entry per awaiting request. Bounded liveness: a controller "
                  "that arms one timer per latest notification and calls on_timeout when it fires (arbitrarily late) reaches "
                  "quiescence (nothing in flight, no timer armed) with every request final; each request fails at the first "
                  "controller call at/after its deadline. Non-trivial = >=2 requests in the history." + ENUM_T),
@@ -213,7 +213,7 @@ PROPS = {
         "profiles": ["dev"],
         "rule": SIMRULE + ("C12 oracle: count = requests sent and not final (C05 automaton, from events only); send_request must "
                  "return MaxOutstandingRequestsReached iff count == limit; a refusal leaves events() empty and the hook "
-                 "snapshot identical; indications change nothing; hook cross-check table size == count after every step. "
+                 "snapshot identical; indications change nothing (hook table size vs count is a suspicion counter only). "
                  "Limits 0,1,2,3,4,10 in rotation; walks of 300-800 operations hammering the limit. Non-trivial = walk with "
                  ">=1 request (or limit 0)." + ENUM_T),
         "assumptions": [],
